@@ -53,6 +53,7 @@ RESPONSE_CODES = {
 # A.10 default success codes per method
 DEFAULT_CODE = {"GET": (2, 5), "FETCH": (2, 5), "DELETE": (2, 2), "POST": (2, 4), "PUT": (2, 4), "PATCH": (2, 4), "iPATCH": (2, 4)}
 # classes of error.py whose name is not a registry name: the code they must inherit / bind
+UNREGISTERED = "<unregistered request code>"
 DERIVED_ERRORS = {"NoResource": (4, 4), "UnallowedMethod": (4, 5), "UnsupportedMethod": (4, 5), "NoRequestInterface": (5, 5)}
 
 
@@ -981,6 +982,307 @@ def _table_key(prog, k, mod):
     return None
 
 
+
+# ---- closed expressions over Code members ---------------------------------------------------------------------------
+#
+# A table may be *computed* from the Code enum (a comprehension over its members, filtered by one of its predicates,
+# with rows derived from the member).  Such a table is as statically known as a display: the members are the
+# int-valued names of the class body, the predicates are one-line methods over `self` as a number.  Everything the
+# evaluator does not know raises _NoVal, and the table is then "not statically known" (the check refuses as before).
+
+
+class _NoVal(Exception):
+    pass
+
+
+class _CodeV(int):
+    """a member of Code (an IntEnum: computes and compares as its number), or an unregistered number"""
+
+    def __new__(cls, num, cname):
+        o = int.__new__(cls, num)
+        o.cname = cname
+        return o
+
+
+_STR_METHODS = ("lower", "upper", "title", "capitalize", "casefold", "strip", "replace", "format", "removeprefix", "removesuffix", "startswith", "endswith", "isupper", "islower")
+
+
+def _code_members(prog):
+    """[(member name, number)] of numbers.codes.Code in definition order"""
+    ci = prog.cls("numbers.codes.Code")
+    out = []
+    for name, expr in ci.attrs.items():
+        if name.startswith("_"):
+            continue
+        try:
+            v = norm.consteval(expr)
+        except norm.NormError:
+            continue
+        if type(v) is int:
+            out.append((name, v))
+    return out
+
+
+def _unknown_code_name(prog):
+    """the name Code gives a number that is not a registered member (its _missing_ hook), None when there is no such hook
+    (then only registered codes exist)"""
+    ci = prog.cls("numbers.codes.Code")
+    f = ci.methods.get("_missing_")
+    if f is None:
+        return None
+    for n in ast.walk(f.node):
+        if isinstance(n, ast.Assign) and len(n.targets) == 1 and isinstance(n.targets[0], ast.Attribute) and n.targets[0].attr == "_name_" \
+                and isinstance(n.value, ast.Constant) and type(n.value.value) is str:
+            return n.value.value
+    return ""
+
+
+def _static_value(prog, e, mod, env=None, leaf=None, depth=0):
+    """Python value of a closed expression: constants, Code members (-> _CodeV), names bound in env, arithmetic,
+    comparisons, boolean operators, conditional expressions, tuples, %-formatting / f-strings / str methods, str()/int()
+    of these, member.name / member.value, and calls of the one-line predicates of Code on a member.  `leaf(e, mod)` is
+    asked first for every node (returns NotImplemented to decline).  Raises _NoVal."""
+    if depth > 12:
+        raise _NoVal()
+    env = env or {}
+    rec = lambda x, env_=env: _static_value(prog, x, _mod_of(x, mod), env_, leaf, depth + 1)
+    if leaf is not None:
+        r = leaf(e, mod)
+        if r is not NotImplemented:
+            return r
+    if isinstance(e, ast.Constant):
+        return e.value
+    if isinstance(e, ast.Name) and e.id in env:
+        return env[e.id]
+    if isinstance(e, (ast.Name, ast.Attribute)) and mod is not None:
+        cv = _code_value(prog, mod, e)
+        if cv is not None:
+            return _CodeV(cv[1], cv[0])
+    if isinstance(e, ast.Attribute):
+        v = rec(e.value)
+        if isinstance(v, _CodeV):
+            if e.attr in ("name", "_name_"):
+                return v.cname
+            if e.attr in ("value", "_value_"):
+                return int(v)
+            ci = prog.cls("numbers.codes.Code")
+            cv = ci.attrs.get(e.attr)
+            if cv is not None and not e.attr.startswith("_"):
+                # a member reached through a member (self.EMPTY)
+                try:
+                    n = norm.consteval(cv)
+                except norm.NormError:
+                    raise _NoVal()
+                if type(n) is int:
+                    return _CodeV(n, e.attr)
+        raise _NoVal()
+    if isinstance(e, ast.Tuple) and not any(isinstance(x, ast.Starred) for x in e.elts):
+        return tuple(rec(x) for x in e.elts)
+    if isinstance(e, ast.UnaryOp):
+        v = rec(e.operand)
+        try:
+            if isinstance(e.op, ast.Not):
+                return not v
+            if isinstance(e.op, ast.USub):
+                return -v
+            if isinstance(e.op, ast.UAdd):
+                return +v
+            if isinstance(e.op, ast.Invert):
+                return ~int(v)
+        except TypeError:
+            raise _NoVal()
+    if isinstance(e, ast.BoolOp):
+        v = None
+        for x in e.values:
+            v = rec(x)
+            if bool(v) == isinstance(e.op, ast.Or):
+                return v
+        return v
+    if isinstance(e, ast.IfExp):
+        return rec(e.body) if rec(e.test) else rec(e.orelse)
+    if isinstance(e, ast.Compare):
+        l = rec(e.left)
+        for op, c in zip(e.ops, e.comparators):
+            r = rec(c)
+            try:
+                if isinstance(op, ast.Eq):
+                    t = l == r
+                elif isinstance(op, ast.NotEq):
+                    t = l != r
+                elif isinstance(op, ast.Lt):
+                    t = l < r
+                elif isinstance(op, ast.LtE):
+                    t = l <= r
+                elif isinstance(op, ast.Gt):
+                    t = l > r
+                elif isinstance(op, ast.GtE):
+                    t = l >= r
+                elif isinstance(op, (ast.Is, ast.IsNot)):
+                    # identity of enum members / None / bools is equality of (kind, value)
+                    if not all(isinstance(x, (_CodeV, bool)) or x is None for x in (l, r)):
+                        raise _NoVal()
+                    same = (type(l) is type(r)) and l == r and getattr(l, "cname", None) == getattr(r, "cname", None)
+                    t = same if isinstance(op, ast.Is) else not same
+                elif isinstance(op, (ast.In, ast.NotIn)):
+                    if not isinstance(r, (tuple, str)):
+                        raise _NoVal()
+                    t = (l in r) if isinstance(op, ast.In) else (l not in r)
+                else:
+                    raise _NoVal()
+            except TypeError:
+                raise _NoVal()
+            if not t:
+                return False
+            l = r
+        return True
+    if isinstance(e, ast.BinOp):
+        l, r = rec(e.left), rec(e.right)
+        try:
+            if isinstance(e.op, ast.Mod) and isinstance(l, str):
+                args = r if isinstance(r, tuple) else (r,)
+                # %s of a Code is its __str__: the member name for request codes (see _handler_name_ok); other
+                # conversions of a Code are not interpreted
+                if any(isinstance(a, _CodeV) for a in args):
+                    raise _NoVal()
+                return l % args
+            if isinstance(l, str) != isinstance(r, str):
+                raise _NoVal()
+            if isinstance(e.op, ast.Add):
+                return l + r
+            if isinstance(l, str):
+                raise _NoVal()
+            if isinstance(e.op, ast.Sub):
+                return l - r
+            if isinstance(e.op, ast.Mult):
+                return l * r
+            if isinstance(e.op, ast.BitAnd):
+                return l & r
+            if isinstance(e.op, ast.BitOr):
+                return l | r
+            if isinstance(e.op, ast.RShift):
+                return l >> r
+            if isinstance(e.op, ast.LShift) and 0 <= r < 64:
+                return l << r
+            if isinstance(e.op, ast.FloorDiv):
+                return l // r
+            if isinstance(e.op, ast.Mod):
+                return l % r
+        except (TypeError, ValueError, ZeroDivisionError):
+            raise _NoVal()
+        raise _NoVal()
+    if isinstance(e, ast.JoinedStr):
+        out = ""
+        for part in e.values:
+            if isinstance(part, ast.Constant) and isinstance(part.value, str):
+                out += part.value
+            elif isinstance(part, ast.FormattedValue) and part.conversion in (-1, 115) and part.format_spec is None:
+                v = rec(part.value)
+                if not isinstance(v, str):
+                    raise _NoVal()
+                out += v
+            else:
+                raise _NoVal()
+        return out
+    if isinstance(e, ast.Call) and not e.keywords and not any(isinstance(a, ast.Starred) for a in e.args):
+        fn = chain(e.func)
+        if fn in ("str", "format") and len(e.args) == 1:
+            v = rec(e.args[0])
+            if isinstance(v, str):
+                return v
+            if isinstance(v, _CodeV):
+                # Code.__str__: the name for codes in the request range (checked on the class: is_request of the number)
+                if _code_predicate(prog, v, "is_request") is True:
+                    return v.cname
+                raise _NoVal()
+            if type(v) is int:
+                return str(v)
+            raise _NoVal()
+        if fn == "int" and len(e.args) == 1:
+            v = rec(e.args[0])
+            if isinstance(v, int) and not isinstance(v, bool):
+                return int(v)
+            raise _NoVal()
+        if isinstance(e.func, ast.Attribute):
+            recv = rec(e.func.value)
+            if isinstance(recv, str) and e.func.attr in _STR_METHODS:
+                args = [rec(a) for a in e.args]
+                if any(isinstance(a, _CodeV) for a in args):
+                    raise _NoVal()
+                try:
+                    return getattr(recv, e.func.attr)(*args)
+                except Exception:
+                    raise _NoVal()
+            if isinstance(recv, _CodeV) and not e.args:
+                r = _code_predicate(prog, recv, e.func.attr, depth + 1)
+                if r is not None:
+                    return r
+    raise _NoVal()
+
+
+def _code_predicate(prog, codev, name, depth=0):
+    """value of the argument-less method `name` of Code on the member / number codev, when the method is a single
+    `return <closed expression over self>` (docstring aside); None when it is not of that shape"""
+    ci = prog.cls("numbers.codes.Code")
+    f = ci.methods.get(name)
+    if f is None or depth > 6:
+        return None
+    a = f.node.args
+    if len(a.args) != 1 or a.posonlyargs or a.kwonlyargs or a.vararg or a.kwarg or f.node.decorator_list:
+        return None
+    body = [st for st in f.node.body if not (isinstance(st, ast.Expr) and isinstance(st.value, ast.Constant))]
+    if len(body) != 1 or not isinstance(body[0], ast.Return) or body[0].value is None:
+        return None
+    try:
+        return _static_value(prog, body[0].value, ci.module, {a.args[0].arg: codev}, None, depth + 1)
+    except _NoVal:
+        return None
+
+
+def _subst_name(e, name, repl):
+    """copy of e with every load of the local `name` replaced by repl (nodes are copied shallowly, so tags such as _fi
+    stay shared); scopes that could rebind the name are not entered"""
+    import copy
+
+    def go(n):
+        if isinstance(n, ast.Name):
+            return repl if (n.id == name and isinstance(n.ctx, ast.Load)) else n
+        if isinstance(n, (ast.Lambda, ast.ListComp, ast.SetComp, ast.DictComp, ast.GeneratorExp, ast.NamedExpr)):
+            if any(isinstance(x, ast.Name) and x.id == name for x in ast.walk(n)):
+                raise _NoVal()
+            return n
+        c = copy.copy(n)
+        for f_, v in ast.iter_fields(n):
+            if isinstance(v, ast.AST):
+                setattr(c, f_, go(v))
+            elif isinstance(v, list):
+                setattr(c, f_, [go(x) if isinstance(x, ast.AST) else x for x in v])
+        return c
+
+    return go(e)
+
+
+def _enum_elements(prog, e, mod):
+    """iteration over the Code class itself (`Code`, list(Code), tuple(Code), sorted(Code)): one element per member"""
+    while isinstance(e, ast.Call) and chain(e.func) in ("tuple", "list", "sorted", "iter") and len(e.args) == 1 and not e.keywords:
+        e = e.args[0]
+    c = chain(e)
+    if c is None or mod is None:
+        return None
+    try:
+        q = prog.resolve_in_module(mod, c)
+    except AnchorError:
+        return None
+    if q != "aiocoap.numbers.codes.Code":
+        return None
+    seen, out = set(), []
+    for name, num in _code_members(prog):
+        if num in seen:
+            continue  # an alias: iteration yields each value once
+        seen.add(num)
+        out.append((ast.Attribute(value=e, attr=name, ctx=ast.Load()), mod))
+    return out
+
+
 def _table(prog, W, d, mod, depth=0):
     """the _Table a mapping expression denotes; None when its content is not statically known.  Read alike: a dict
     display (with ** of known tables), dict(<table or pairs>), dict.fromkeys(<literal>, v), a dict comprehension over a
@@ -1021,14 +1323,16 @@ def _table(prog, W, d, mod, depth=0):
             return None
         return _Table(a.rows + b.rows, a.missing)
     if isinstance(d, ast.DictComp):
+        # {x: f(x) for x in <literal or the Code enum> if p(x)}: one row per element that passes the (statically
+        # evaluated) filters, the value with the element substituted for the loop variable
         if len(d.generators) != 1:
             return None
         g = d.generators[0]
-        if g.ifs or g.is_async or not isinstance(g.target, ast.Name) or not (isinstance(d.key, ast.Name) and d.key.id == g.target.id):
-            return None
-        if any(isinstance(n, ast.Name) and n.id == g.target.id for n in ast.walk(d.value)):
+        if g.is_async or not isinstance(g.target, ast.Name) or not (isinstance(d.key, ast.Name) and d.key.id == g.target.id):
             return None
         els = _literal_elements(prog, W, g.iter, mod)
+        if els is None:
+            els = _enum_elements(prog, g.iter, mod)
         if els is None:
             return None
         rows = []
@@ -1036,7 +1340,15 @@ def _table(prog, W, d, mod, depth=0):
             key = _table_key(prog, x, xm)
             if key is None:
                 return None
-            rows.append((key, d.value, _mod_of(d.value, mod)))
+            if xm is not mod and any(isinstance(n, ast.Name) and n.id == g.target.id for p_ in [d.value] + list(g.ifs) for n in ast.walk(p_)):
+                return None  # the element is spelled in another module's names than the expression it is substituted into
+            try:
+                if not all(_static_value(prog, _subst_name(f_, g.target.id, x), mod) for f_ in g.ifs):
+                    continue
+                val = _subst_name(d.value, g.target.id, x)
+            except _NoVal:
+                return None
+            rows.append((key, val, mod))
         return _Table(rows)
     if isinstance(d, ast.Call) and not any(isinstance(a, ast.Starred) for a in d.args) and not any(k.arg is None for k in d.keywords):
         fn = chain(d.func) or ""
@@ -1091,9 +1403,85 @@ class _MethodEval:
             except norm.NormError:
                 v = None
             self.num[mth] = v if isinstance(v, int) else n
+        # a request code that is no registered member of Code: the class admits such numbers when it has a _missing_ hook
+        # (Message.decode builds Code(<byte>)), and render sees them when is_request() holds for the number
+        self.unreg_name = _unknown_code_name(prog)
+        self.unreg = None
+        if self.unreg_name is not None:
+            taken = {n for _, n in _code_members(prog)}
+            for n in range(1, 256):
+                if n not in taken and _code_predicate(prog, _CodeV(n, self.unreg_name), "is_request") is True:
+                    self.unreg = n
+                    self.num[UNREGISTERED] = n
+                    break
 
-    def table(self, d, o=None):
-        mod = _mod_of(d, None)
+    def codev(self, mth):
+        return _CodeV(self.num[mth], self.unreg_name if mth == UNREGISTERED else mth)
+
+    def key2(self, k, mth, mod):
+        """key(), or the key a closed expression denotes (a row derived from a member reads other tables by the member)"""
+        r = self.key(k, mth)
+        if r is None and mod is not None:
+            r = _table_key(self.prog, k, _mod_of(k, mod))
+        return r
+
+    def entry(self, o, v, mth, mod, depth=0):
+        """what the mapping read v yields for method mth: ("expr", row expression, its module) | ("none",) |
+        ("raise", "KeyError", v) | None (not a read of a known table by the method)"""
+        lk = self.lookup(v)
+        if lk is None or depth > 8:
+            return None
+        texpr, kexpr, kind, default = lk
+        key = self.key2(kexpr, mth, mod)
+        t = self.table(texpr, o, mod)
+        if key is None or t is None:
+            return None
+        hit = t.row(key)
+        if hit is not None:
+            return ("expr", hit[0], hit[1])
+        if kind == "get":
+            return ("expr", default, mod) if default is not None else ("none",)
+        if t.missing is not None:
+            return ("expr", t.missing[0], t.missing[1])
+        return ("raise", "KeyError", v)
+
+    def component(self, o, v, mth, mod, depth=0):
+        """v = <mapping read>[<int>]: the component of the tuple-valued row -- ("expr", e, mod) | ("raise", ..) | None"""
+        if not (isinstance(v, ast.Subscript) and isinstance(v.slice, ast.Constant) and type(v.slice.value) is int):
+            return None
+        inner = v.value
+        ent = self.entry(o, inner, mth, mod, depth + 1) if self.lookup(inner) is not None and self.key(self.lookup(inner)[1], "GET") is not None else self.component(o, inner, mth, mod, depth + 1) if depth < 4 else None
+        if ent is None or ent[0] == "raise":
+            return ent
+        if ent[0] != "expr":
+            return None
+        row = ent[1]
+        if isinstance(row, (ast.Tuple, ast.List)) and not any(isinstance(x, ast.Starred) for x in row.elts) and -len(row.elts) <= v.slice.value < len(row.elts):
+            x = row.elts[v.slice.value]
+            return ("expr", x, _mod_of(x, ent[2]))
+        return None
+
+    def pyvalue(self, o, e, mth, mod=None):
+        """Python value (str, number, bool, None) of a resolved expression for method mth; raises _NoVal"""
+        def leaf(x, m_):
+            if K(x) == self.subj:
+                return self.codev(mth)
+            ent = self.component(o, x, mth, m_)
+            if ent is None and self.lookup(x) is not None and self.key(self.lookup(x)[1], "GET") is not None:
+                ent = self.entry(o, x, mth, m_)
+                if ent is None:
+                    raise _NoVal()
+            if ent is None:
+                return NotImplemented
+            if ent[0] == "none":
+                return None
+            if ent[0] == "raise":
+                raise _NoVal()
+            return _static_value(self.prog, ent[1], ent[2], None, leaf)
+        return _static_value(self.prog, e, _mod_of(e, mod), None, leaf)
+
+    def table(self, d, o=None, mod=None):
+        mod = _mod_of(d, mod)
         if mod is None:
             return None
         k = (K(d), mod.name)
@@ -1120,7 +1508,9 @@ class _MethodEval:
             # Code.__str__ gives the member name for request codes (see _handler_name_ok)
             m = match(p, k)
             if m is not None and K(m["c"]) == self.subj:
-                return ("name", mth)
+                if mth == UNREGISTERED and not self.unreg_name:
+                    return None  # the name of an unregistered code is not known
+                return ("name", self.unreg_name if mth == UNREGISTERED else mth)
         return None
 
     def lookup(self, v):
@@ -1165,22 +1555,12 @@ class _MethodEval:
                 if true == isinstance(v.op, ast.Or):
                     return r
             return r
-        lk = self.lookup(v)
-        if lk is None:
-            return None
-        texpr, kexpr, kind, default = lk
-        key = self.key(kexpr, mth)
-        t = self.table(texpr, o)
-        if key is None or t is None:
-            return None
-        hit = t.row(key)
-        if hit is not None:
-            return self.value(o, hit[0], mth, hit[1], depth + 1)
-        if kind == "get":
-            return rec(default) if default is not None else ("none",)
-        if t.missing is not None:
-            return self.value(o, t.missing[0], mth, t.missing[1], depth + 1)
-        return ("raise", "KeyError", v)
+        ent = self.component(o, v, mth, mod)
+        if ent is None:
+            ent = self.entry(o, v, mth, mod, depth)
+        if ent is None or ent[0] != "expr":
+            return ent
+        return self.value(o, ent[1], mth, ent[2], depth + 1)
 
     def truth(self, o, e, mth):
         """truth of a resolved condition for method mth as far as it is a fact about the method (membership in a known
@@ -1213,7 +1593,10 @@ class _MethodEval:
             if r is not None and r[0] in ("none", "code"):
                 return r[0] == "code" and r[2] != 0
         vals = dict(o.vals)
-        vals[self.subj] = mth
+        if mth != UNREGISTERED:
+            # (the walker's subject domain is the registered methods; for a code outside it only the path's own
+            # decisions speak)
+            vals[self.subj] = mth
         return self.W._truth(e, o.dec, vals)
 
     def lookups_in(self, exprs, o):
@@ -1311,6 +1694,61 @@ def e(ctx):
     def renders_405(q):
         return q is not None and q in prog.classes and _class_code(prog, q) == c405 and prog.is_subclass(q, "aiocoap.error.RenderableError")
 
+    def name_ok(o, nm):
+        """the name is spelled render_<lower-cased method name> (any formatting), or evaluates to it for every method
+        that can take the path (a name read from a table computed from the method names)"""
+        if _handler_name_ok(nm, req):
+            return True
+        try:
+            for mth in ([o.vals[subj]] if subj in o.vals else list(METHODS)):
+                if ME.feasible(o, mth) and ME.pyvalue(o, nm, mth, fi.module) != "render_" + mth.lower():
+                    return False
+        except _NoVal:
+            return False
+        return True
+
+    def unregistered_reads(o):
+        """mapping reads `m[<the request's code>]` evaluated on the path o that have no row for a request code which
+        is not a registered member of Code and whose KeyError no handler of render takes: [(site, fi)].
+
+        Necessary condition decided here: the request range (is_request) is wider than the registered methods, and
+        Code(<number>) exists for every number (its _missing_ hook), so such a request reaches render; the path on which
+        the resource has no handler is the only one it may take (4.05).  A subscript into a mapping whose keys are
+        registered members only, evaluated on that path, raises KeyError for it instead -- answered 5.00.  Sound for
+        every spelling of the table the evaluator reads (display, fromkeys, comprehension over the enum, ...); .get(),
+        a defaultdict, a membership guard (the path is then infeasible for the code) or a KeyError handler are all
+        accepted because they are evaluated, not matched."""
+        if ME.unreg is None or subj in o.vals or not ME.feasible(o, UNREGISTERED):
+            return []
+        sites = []
+        for ev in o.events:
+            for x in [ev.expr, ev.value, ev.target, ev.func] + list(ev.args) + list(ev.kw.values()):
+                if isinstance(x, ast.AST):
+                    sites.append((x, ev.stack, ev.fi))
+        for dcs in o.decisions:
+            sites.append((dcs.expr, None, dcs.fi))
+        if isinstance(o.value, ast.AST):
+            sites.append((o.value, None, fi))
+        out, seen = [], set()
+        for x, stack, xfi in sites:
+            for n in ast.walk(x):
+                lk = ME.lookup(n)
+                if lk is None or lk[2] != "item" or ME.key(lk[1], "GET") is None or id(origin(n)) in seen:
+                    continue
+                nfi = getattr(n, "_fi", xfi)
+                ent = ME.entry(o, n, UNREGISTERED, nfi.module)
+                if ent is None or ent[0] != "raise":
+                    continue
+                if stack is None:
+                    if nfi is not fi:
+                        continue  # evaluated in a followed helper and the call chain is not known here: not decided
+                    stack = ()
+                if W.exception_safe(Event("call", origin(n), nfi, stack), ent[1]) is not None:
+                    continue
+                seen.add(id(origin(n)))
+                out.append((n, nfi))
+        return out
+
     handlers = {}
     for o in outs:
         for e_ in invocations(o):
@@ -1336,16 +1774,25 @@ def e(ctx):
         inv = invocations(o)
         pres = [has_handler(o, h_) for h_ in handlers.values()]
         present = True if any(x is True for x in pres) else (False if any(x is False for x in pres) else None)
+        if present is None and o.kind == "raise" and not inv and ME.unreg is not None and subj not in o.vals \
+                and not any(ME.feasible(o, m_) for m_ in METHODS) and ME.feasible(o, UNREGISTERED):
+            # a path that, by what known tables say about the method (a membership guard, the KeyError of a lookup), no
+            # registered method takes but an unregistered request code does: the resource has no handler for such a
+            # code (handlers are named after registered methods), so this is case (2) decided before the lookup
+            present = False
         if present is False:
             # (2) no handler for the method
             n_unallowed += 1
             if obs.add("a method the resource does not implement is rejected", o.kind == "raise" and not inv, rfi, rnode, construct=None if rnode is not None else "Resource.render", detail="path [%s]" % o.describe()):
                 obs.add("the rejection of an unimplemented method is error.UnallowedMethod", q == "aiocoap.error.UnallowedMethod", rfi, rnode, detail="raises %s" % q)
                 obs.add("the rejection of an unimplemented method renders as 4.05", renders_405(q), rfi, rnode)
+            for site, sfi_ in unregistered_reads(o):
+                obs.add("a request code that is no registered method is answered 4.05 like any method the resource does not implement", False, sfi_, _stmt_of(cfg_of(sfi_), origin(site)),
+                        detail="%s has no row for a request code outside the registered methods (e.g. 0.%02d, which is_request() admits): KeyError leaves render (answered 5.00) before the missing handler is noticed" % (K(site), ME.unreg))
             continue
         for e_ in inv:
             m = lookup(e_.func)
-            obs.add("the handler is looked up as render_<lower-case method name> of the request", _handler_name_ok(m["n"], req) and ("d" not in m or (isinstance(m["d"], ast.Constant) and m["d"].value is None)), getattr(e_.func, "_fi", e_.fi), origin(e_.func))
+            obs.add("the handler is looked up as render_<lower-case method name> of the request", name_ok(o, m["n"]) and ("d" not in m or (isinstance(m["d"], ast.Constant) and m["d"].value is None)), getattr(e_.func, "_fi", e_.fi), origin(e_.func))
             obs.add("the handler runs only for request codes", isreq is True, e_.fi, e_.node, detail="path [%s]" % o.describe())
             obs.add("the handler is only invoked when the resource has one", has_handler(o, e_.func) is True, e_.fi, e_.node, detail="path [%s]" % o.describe())
         if o.kind != "return":
@@ -2365,6 +2812,10 @@ R.seed("C09.e", F_RES, _CHAIN, "            response.code = {Code.GET: Code.CONT
        "table-driven defaults without a row for iPATCH: KeyError -> 5.00 after the handler succeeded")
 R.seed("C09.e", F_RES, _CHAIN, "            response.code = dict.fromkeys((Code.GET, Code.FETCH), Code.CONTENT).get(request.code) or {Code.DELETE: Code.DELETED}.get(request.code)\n",
        "methods outside the tables keep code None")
+R.seed("C09.e", F_RES, "        m = getattr(self, \"render_%s\" % str(request.code).lower(), None)\n", "        m = getattr(self, {c: \"render_%s\" % c.name.lower() for c in Code if c.is_request()}[request.code], None)\n",
+       "handler names from a table computed from the registered methods: KeyError (5.00) for a request code outside the enum instead of 4.05")
+R.seed("C09.e", F_RES, "        m = getattr(self, \"render_%s\" % str(request.code).lower(), None)\n", "        m = getattr(self, {c: \"render_%s\" % c.name for c in Code if c.is_request()}.get(request.code, \"\"), None)\n",
+       "handler names from a computed table that are not lower-cased: no handler is ever found")
 R.seed("C09.e", F_RES, _CHAIN, "            try:\n                response.code = {Code.GET: Code.CONTENT, Code.DELETE: Code.DELETED}[request.code]\n            except LookupError:\n                response.code = Code.CHANGED\n",
        "lookup with a KeyError fallback that forgot FETCH")
 R.seed("C09.e", F_RES, _CHAIN, "            if request.code in {Code.GET: Code.CONTENT, Code.FETCH: Code.CONTENT, Code.DELETE: Code.DELETED}:\n                response.code = {Code.GET: Code.CONTENT, Code.FETCH: Code.CONTENT}[request.code]\n            else:\n                response.code = Code.CHANGED\n",
